@@ -16,6 +16,8 @@ for name in sorted(os.listdir(os.path.join(V, "seeded"))):
             det.append(p + (" (no-failing-input-found)" if all("no-failing-input-found" in l for l in v) else " (failing input)"))
         else:
             det.append(p + " MISSED")
+    if m.get("obsolete"):
+        det = ["obsolete: no longer a defect (" + m["obsolete"][:110] + "...)"]
     what = (m.get("title") or m.get("what_changed") or "")[:150].replace("|", "/").replace("\n", " ")
     needs = (m.get("needs_to_manifest") or "")[:170].replace("|", "/").replace("\n", " ")
     rows.append(f"| {name} | {m.get('property')} | {what} | {needs} | {', '.join(det) or 'not run'} |")
